@@ -29,6 +29,7 @@ type Cfg struct {
 	AllowFailPct int
 	ContinuePct  int // percentage of pipelines with continue_running_tasks_after_failure
 	Retention    bool
+	ReloadKinds  []string // restricts the edit kinds of reloads (nil = all)
 
 	Weights map[string]int // action weights
 	Armed   map[string]bool
